@@ -79,7 +79,7 @@ def cases(seed, tier):
             'uuid_seed': prng.randint(0, 10 ** 6),
             'scheduler': 'legacy' if prng.random() < 0.6 else 'default',
             'n_runs': 16 if tier == 'quick' else 40,
-            'max_seq': 1 if tier == 'quick' else 4,
+            'max_seq': 2 if tier == 'quick' else 4,
             'bseed': prng.randint(0, 10 ** 6),
         })
     return out
